@@ -264,12 +264,17 @@ def subresLoop (qs : Pairs) : List Bytes → Bool → Bytes
     let vs := getAll qs q
     subresItems q vs isFirst ++ subresLoop qs rest (isFirst && vs.isEmpty)
 
+/-- `push_field_value`: the values of one field in the order received, joined with `,`; nothing when the
+    field is absent -/
+def joinValues : List Bytes → Bytes
+  | [] => []
+  | v :: vs => v ++ vs.flatMap fun w => 44 :: w
+
 /-- the `match mode { … }` block: `{Date}` or `{Expires}` -/
 def dateLine (mode : Mode) (qs : Option Pairs) (hs : Pairs) : Bytes :=
   match mode with
   | .headerAuth =>
-    let date := (getUnique hs (v2b!"date")).getD []
-    if (getUnique hs (v2b!"x-amz-date")).isSome then [] else date
+    if (getUnique hs (v2b!"x-amz-date")).isNone then joinValues (getAll hs (v2b!"date")) else []
   | .presignedUrl => ((qs.bind fun q => getUnique q (v2b!"Expires"))).getD []
 
 /-- `{CanonicalizedResource}` -/
@@ -286,8 +291,8 @@ def resource (uriPath : Bytes) (qs : Option Pairs) (vhBucket : Option Bytes) : B
     `hs` is the `OrderedHeaders` vector, `qs` the `OrderedQs` vector -/
 def stringToSign (mode : Mode) (method uriPath : Bytes) (qs : Option Pairs) (hs : Pairs)
     (vhBucket : Option Bytes) : Bytes :=
-  let md5 := (getUnique hs (v2b!"content-md5")).getD []
-  let ctype := (getUnique hs (v2b!"content-type")).getD []
+  let md5 := joinValues (getAll hs (v2b!"content-md5"))
+  let ctype := joinValues (getAll hs (v2b!"content-type"))
   method ++ 10 :: md5 ++ 10 :: ctype ++ 10 :: dateLine mode qs hs ++ 10 :: amzLoop hs hs [] ++
     resource uriPath qs vhBucket
 
@@ -324,8 +329,8 @@ structure Ctx where
 /-- `v2_check_header_auth` -/
 def checkHeaderAuth (hmac : Bytes → Bytes → Bytes) (b64 : Bytes → Bytes) (lookup : Bytes → Option Bytes)
     (c : Ctx) (accessKey signature : Bytes) : Verdict :=
-  let date := (getUnique c.hs (v2b!"date")).orElse fun _ => getUnique c.hs (v2b!"x-amz-date")
-  if date.isNone then .reject .InvalidRequest
+  let hasDate := !(getAll c.hs (v2b!"date")).isEmpty || (getUnique c.hs (v2b!"x-amz-date")).isSome
+  if !hasDate then .reject .InvalidRequest
   else match lookup accessKey with
     | none => .reject .NotSignedUp
     | some secret =>
